@@ -1,1 +1,269 @@
-/-! C10 - property theorems (declared with their full name `C10.<name>`; helper lemmas go to Lemmas/) -/
+import CohdlVerif.Lemmas.C10Lemmas
+
+/-!
+  C10 - property theorems about the hand-re-implemented pieces of Python semantics in cohdl's tracer
+  (models and specifications: Model/C10.lean, helper lemmas: Lemmas/C10Lemmas.lean).
+  Everything else the property talks about (closures, classes, super(), comprehensions ...) is covered only
+  by the differential run of harness/c10.py - no model of CPython as a whole is attempted.
+-/
+open CohdlVerif.C10
+
+/-! ## argument binding -/
+
+/-- C10 (binding), full strength: for EVERY signature (any mix of positional-only, positional-or-keyword,
+    `*args`, keyword-only, `**kwargs` parameters and defaults) and EVERY call shape, `bind_args` binds exactly
+    what CPython binds and rejects exactly what CPython rejects.  The only hypothesis is what Python's grammar
+    guarantees (a duplicate parameter name is a SyntaxError). -/
+theorem C10.bind_equiv (s : Sig) (c : Call) (h : s.wf) : bindModel s c = cpyBind s c :=
+  bind_equiv_aux s c h
+
+/-- non-vacuity: `def f(a, /, b, c=30, *args, k, d=50, **kw)` called as `f(1, 2, 3, 4, k=7, z=9)` -/
+example : bindModel ⟨[1], [2, 3], some 4, [5, 6], some 7, [(3, 30)], [(6, 50)]⟩ ⟨[10, 20, 31, 41], [(5, 70), (9, 90)]⟩
+    = some [(1, .val 10), (2, .val 20), (3, .val 31), (4, .tup [41]), (5, .val 70), (6, .val 50), (7, .dict [(9, 90)])] := by
+  decide
+example : Sig.wf ⟨[1], [2, 3], some 4, [5, 6], some 7, [(3, 30)], [(6, 50)]⟩ := by unfold Sig.wf; decide
+/-- a rejected call: `def f(a, /, b)` called as `f(1, a=2)` (positional-only name as keyword, no `**kw`) -/
+example : cpyBind ⟨[1], [2], none, [], none, [], []⟩ ⟨[10], [(1, 20)]⟩ = none := by decide
+
+/-! ## starred assignment -/
+
+/-- C10 (starred targets), full strength: `_split_target` accepts a source for `n` targets with the starred
+    one at position `i` exactly when the source splits as `pre ++ mid ++ post` with `i` elements before and
+    `n-i-1` elements after the star, and then yields exactly Python's assignment (7.2): the plain targets
+    get `pre` / `post` element-wise, the starred target gets `mid`. -/
+theorem C10.splitTarget_spec {α : Type} (n i : Nat) (hi : i < n) (src : List α) (items : List (Item α)) :
+    splitTarget n (some i) src = some items ↔
+      ∃ pre mid post, src = pre ++ mid ++ post ∧ pre.length = i ∧ post.length = n - i - 1 ∧
+        items = pre.map .one ++ [.many mid] ++ post.map .one := by
+  constructor
+  · intro h
+    unfold splitTarget at h
+    simp only at h
+    split at h
+    · exact absurd h (by simp)
+    · rename_i hlen
+      have hlen : n - 1 ≤ src.length := by omega
+      split at h
+      · rename_i ha
+        refine ⟨src.take i, src.drop i, [], by simp, ?_, by simp; omega, ?_⟩
+        · simp only [List.length_take]; omega
+        · simp only [Option.some.injEq] at h; simp [← h]
+      · rename_i ha
+        refine ⟨src.take i, (src.drop i).take (src.length - (n - i - 1) - i), src.drop (src.length - (n - i - 1)), ?_, ?_, ?_, ?_⟩
+        · have h1 : src.drop (src.length - (n - i - 1)) = (src.drop i).drop (src.length - (n - i - 1) - i) := by
+            rw [List.drop_drop]; congr 1; omega
+          rw [h1, List.append_assoc, List.take_append_drop, List.take_append_drop]
+        · simp only [List.length_take]; omega
+        · simp only [List.length_drop]; omega
+        · simp only [Option.some.injEq] at h; simp [← h]
+  · rintro ⟨pre, mid, post, hsrc, hpre, hpost, hitems⟩
+    subst hsrc hitems
+    unfold splitTarget
+    simp only [List.length_append]
+    have h1 : ¬ (pre.length + mid.length + post.length < n - 1) := by omega
+    simp only [h1, if_false]
+    by_cases ha : n - i - 1 = 0
+    · have hp : post = [] := List.eq_nil_of_length_eq_zero (by omega)
+      subst hp
+      simp only [ha, if_true, List.append_nil, List.map_nil]
+      rw [← hpre]
+      simp
+    · simp only [ha, if_false]
+      have e1 : pre.length + mid.length + post.length - (n - i - 1) - i = mid.length := by omega
+      have e2 : pre.length + mid.length + post.length - (n - i - 1) = (pre ++ mid).length := by
+        simp only [List.length_append]; omega
+      rw [e1, e2, ← hpre]
+      simp [List.append_assoc]
+
+/-- without a starred target the source must have exactly `n` elements and is assigned element-wise -/
+theorem C10.splitTarget_plain {α : Type} (n : Nat) (src : List α) (items : List (Item α)) :
+    splitTarget n none src = some items ↔ src.length = n ∧ items = src.map .one := by
+  unfold splitTarget
+  by_cases h : src.length = n <;> simp [h, eq_comm]
+
+/-- non-vacuity: `a, *b, c = [1,2,3,4,5]` and the shortest accepted source `a, *b, c = [1,2]` -/
+example : splitTarget 3 (some 1) [1, 2, 3, 4, 5] = some [.one 1, .many [2, 3, 4], .one 5] := by decide
+example : splitTarget 3 (some 1) [1, 2] = some [.one 1, .many [], .one 2] := by decide
+example : splitTarget 3 (some 1) [1] = none := by decide
+
+/-! ## and / or -/
+
+/-- C10 (and/or yield the truth value), full strength: for every operand list and every notion of truthiness
+    the folded constant is the truth value of the operand Python's `and` / `or` returns. -/
+theorem C10.boolop_truth {α : Type} (truthy : α → Bool) (op : BOp) (x : α) (r : List α) :
+    foldBoolOp op ((x :: r).map truthy) = truthy (pyBoolOp truthy op x r).1 := by
+  induction r generalizing x with
+  | nil => cases op <;> simp [foldBoolOp, pyBoolOp]
+  | cons y r ih =>
+    have ihy := ih y
+    simp [foldBoolOp] at ihy
+    unfold pyBoolOp
+    cases op <;> cases hx : truthy x <;> simp [foldBoolOp, hx, ihy]
+
+/-- Python never evaluates more operands than the tracer (which evaluates all of them) ... -/
+theorem C10.boolop_evaluated_le {α : Type} (truthy : α → Bool) (op : BOp) (x : α) (r : List α) :
+    (pyBoolOp truthy op x r).2 ≤ foldBoolOpEvaluated op ((x :: r).map truthy) := by
+  induction r generalizing x with
+  | nil => simp [pyBoolOp, foldBoolOpEvaluated]
+  | cons y r ih =>
+    have ihy := ih y
+    simp only [foldBoolOpEvaluated, List.length_map, List.length_cons] at ihy ⊢
+    unfold pyBoolOp
+    cases op <;> cases hx : truthy x <;> simp [hx] <;> omega
+
+/- ... but the unrestricted statement "the tracer evaluates exactly the operands Python evaluates"
+       ∀ truthy op x r, (pyBoolOp truthy op x r).2 = foldBoolOpEvaluated op ((x :: r).map truthy)
+   is FALSE of the current code: there is no short-circuit (finding C10 `boolop-no-short-circuit`). -/
+theorem C10.boolop_short_circuit_fails_at :
+    ¬ ∀ (op : BOp) (x : Nat) (r : List Nat),
+      (pyBoolOp (fun n => n != 0) op x r).2 = foldBoolOpEvaluated op ((x :: r).map fun n => n != 0) := by
+  intro h
+  exact absurd (h .and 0 [1]) (by decide)
+
+/-- the two agree exactly when no operand before the last one decides the result -/
+theorem C10.boolop_evaluated_partial {α : Type} (truthy : α → Bool) (op : BOp) (x : α) (r : List α)
+    (h : ∀ y ∈ (x :: r).dropLast, truthy y = (match op with | .and => true | .or => false)) :
+    (pyBoolOp truthy op x r).2 = foldBoolOpEvaluated op ((x :: r).map truthy) := by
+  induction r generalizing x with
+  | nil => simp [pyBoolOp, foldBoolOpEvaluated]
+  | cons y r ih =>
+    have hx := h x (by simp [List.dropLast])
+    have ihy := ih y (fun z hz => h z (by simp [List.dropLast] at hz ⊢; exact Or.inr hz))
+    simp only [foldBoolOpEvaluated, List.length_map, List.length_cons] at ihy ⊢
+    unfold pyBoolOp
+    cases op <;> simp_all
+
+example : ∀ y ∈ ([3, 5, 0] : List Nat).dropLast, (fun n : Nat => n != 0) y = true := by decide
+
+/-! ## comparison chains -/
+
+/-- C10 (chained comparison), value: `x0 op0 x1 op1 x2 ...` folds to `(x0 op0 x1) and (x1 op1 x2) and ...`
+    for every number of links and every outcome of the links -/
+theorem C10.compare_chain (link : Nat → Bool) (n : Nat) :
+    (foldCompareChain link n).1 = (pyChain link n).1 ∧ (foldCompareChain link n).1 = allLinks link n := by
+  have h := cmpLoop_val link 0 n
+  simp only [foldCompareChain, pyChain, allLinks, List.range_eq_range']
+  exact ⟨h.1, h.2.1⟩
+
+/-- the comparisons performed (and their order) are exactly CPython's: no link is dropped, repeated or
+    evaluated after a false one -/
+theorem C10.compare_chain_links (link : Nat → Bool) (n : Nat) :
+    (foldCompareChain link n).2.filter Ev.isCmp = (pyChain link n).2.filter Ev.isCmp := by
+  have h := (cmpLoop_val link 0 n).2.2
+  simp only [foldCompareChain, pyChain, List.filter_append, List.filter_cons, isCmp_operand]
+  have : ((List.range (n + 1)).map Ev.operand).filter Ev.isCmp = [] := by
+    apply List.filter_eq_nil_iff.mpr
+    intro e he
+    obtain ⟨i, _, rfl⟩ := List.mem_map.mp he
+    simp
+  rw [this, h]
+  simp
+
+/-- single evaluation: the operand evaluations of the tracer are operand 0, 1, ..., n - each exactly once,
+    in source order, whatever the links evaluate to -/
+theorem C10.compare_chain_single_eval (link : Nat → Bool) (n : Nat) :
+    (foldCompareChain link n).2.filter (fun e => !e.isCmp) = (List.range (n + 1)).map Ev.operand := by
+  simp only [foldCompareChain, List.filter_append, operands_filter, cmpLoop_filter, List.append_nil]
+
+/- the unrestricted statement "same evaluation trace"  ∀ link n, (foldCompareChain link n).2 = (pyChain link n).2
+   is FALSE of the current code: all operands are evaluated up front, so an operand behind a false link is
+   evaluated although CPython skips it (finding C10 `chain-no-short-circuit`). -/
+theorem C10.compare_chain_trace_fails_at :
+    ¬ ∀ (link : Nat → Bool) (n : Nat),
+      (foldCompareChain link n).2.filter (fun e => !e.isCmp) = (pyChain link n).2.filter (fun e => !e.isCmp) := by
+  intro h
+  exact absurd (h (fun _ => false) 2) (by decide)
+
+/-- ... it holds whenever no link before the last one is false (then nothing is skipped by CPython) -/
+theorem C10.compare_chain_trace_partial (link : Nat → Bool) (n : Nat) (h : ∀ j, j + 1 < n → link j = true) :
+    (foldCompareChain link n).2.filter (fun e => !e.isCmp) = (pyChain link n).2.filter (fun e => !e.isCmp) := by
+  have hp := pyChainFrom_operands link 0 n (fun j _ h2 => h j (by omega))
+  simp only [foldCompareChain, pyChain, List.filter_append, operands_filter, cmpLoop_filter, List.append_nil,
+    List.filter_cons, isCmp_operand, Bool.not_false, if_true, hp]
+  simp [List.range_eq_range', List.range'_succ]
+
+example : ∀ j, j + 1 < 3 → (fun i => decide (i < 2)) j = true := by intro j hj; simp; omega
+
+/-! ## operator dispatch -/
+
+/- C10 (operator dispatch), unrestricted statement - every value CPython computes for `lhs op rhs` is
+   computed by the tracer through the same special-method calls:
+       ∀ c, c.wf → ∀ calls v, cpyBinOp c = (calls, some v) → dispatchBinOp c = (calls, some v)
+   It is FALSE of the current code: the subclass-priority rule for reflected operators is missing
+   (`class B(A)` overriding `__radd__`: `A(1) + B(2)` is `B.__radd__` in CPython, `A.__add__` in the tracer). -/
+theorem C10.dispatch_equiv_fails_at :
+    ¬ ∀ c : BinCfg, c.wf = true → ∀ calls v, cpyBinOp c = (calls, some v) → dispatchBinOp c = (calls, some v) := by
+  intro h
+  have := h ⟨false, true, true, some (.val 1), some (.val 2)⟩ (by decide) [.r] 2 (by decide)
+  exact absurd this (by decide)
+
+/-- the restricted statement: whenever CPython's priority rule does not apply (rhs type is not a proper
+    subclass of the lhs type that overrides the reflected method) the tracer computes every value CPython
+    computes, calling the same special methods in the same order -/
+theorem C10.dispatch_equiv_partial (c : BinCfg) (hp : c.priority = false) (calls : List MCall) (v : Val)
+    (h : cpyBinOp c = (calls, some v)) : dispatchBinOp c = (calls, some v) := by
+  obtain ⟨same, rsub, rdiff, lop, rrop⟩ := c
+  simp only [cpyBinOp, hp] at h
+  simp only [dispatchBinOp, tryReflected]
+  rcases lop with _ | _ | lv <;> rcases rrop with _ | _ | rv <;> cases same <;> simp_all
+
+/-- for operands of different types (and no priority case) the tracer and CPython agree completely: same
+    calls, same value, same reject decision -/
+theorem C10.dispatch_equiv_difftype (c : BinCfg) (hp : c.priority = false) (hs : c.same = false) :
+    dispatchBinOp c = cpyBinOp c := by
+  obtain ⟨same, rsub, rdiff, lop, rrop⟩ := c
+  simp only at hs
+  subst hs
+  simp only [cpyBinOp, hp, dispatchBinOp, tryReflected]
+  rcases lop with _ | _ | lv <;> rcases rrop with _ | _ | rv <;> simp
+
+/-- with the priority test added (fixes/C10-reflected-priority.patch) the unrestricted statement holds -/
+theorem C10.dispatch_fixed_equiv (c : BinCfg) (calls : List MCall) (v : Val)
+    (h : cpyBinOp c = (calls, some v)) : dispatchBinOpFixed c = (calls, some v) := by
+  obtain ⟨same, rsub, rdiff, lop, rrop⟩ := c
+  simp only [cpyBinOp] at h
+  simp only [dispatchBinOpFixed, dispatchBinOp, tryReflected]
+  rcases lop with _ | _ | lv <;> rcases rrop with _ | _ | rv <;> cases same <;> cases rsub <;> cases rdiff <;>
+    simp_all [BinCfg.priority]
+
+/-- non-vacuity: `5 + Num(2)` (int.__add__ returns NotImplemented, Num.__radd__ answers) -/
+example : BinCfg.priority ⟨false, false, true, some .notImpl, some (.val 7)⟩ = false ∧
+    cpyBinOp ⟨false, false, true, some .notImpl, some (.val 7)⟩ = ([.l, .r], some 7) := by decide
+
+/- rich comparisons, unrestricted statement
+       ∀ c, c.wf → ∀ calls b, cpyCmp c = (calls, some b) → dispatchCmp c = (calls, some b) ∨ (dispatchCmp c).2 = none
+   FALSE of the current code (`class B(A)`: `A() < B()` calls `B.__gt__` first in CPython). -/
+theorem C10.cmp_dispatch_fails_at :
+    ¬ ∀ c : CmpCfg, c.wf = true → ∀ calls b, cpyCmp c = (calls, some b) →
+        dispatchCmp c = (calls, some b) ∨ (dispatchCmp c).2 = none := by
+  intro h
+  have := h ⟨.ord, false, true, false, .val true, .val false⟩ (by decide) [.r] false (by decide)
+  exact absurd this (by decide)
+
+/-- without the priority case: every value CPython computes is computed by the tracer with the same calls, or
+    the tracer rejects (it has no identity fallback for `==` / `!=`) -/
+theorem C10.cmp_dispatch_partial (c : CmpCfg) (hp : c.priority = false) (calls : List MCall) (b : Bool)
+    (h : cpyCmp c = (calls, some b)) : dispatchCmp c = (calls, some b) ∨ dispatchCmp c = (calls, none) := by
+  obtain ⟨kind, same, rsub, ident, lop, rrop⟩ := c
+  simp only [cpyCmp, hp] at h
+  simp only [dispatchCmp]
+  rcases lop with _ | lv <;> rcases rrop with _ | rv <;> cases kind <;> simp_all
+
+/-- and every value the tracer computes is CPython's -/
+theorem C10.cmp_dispatch_sound_partial (c : CmpCfg) (hp : c.priority = false) (calls : List MCall) (b : Bool)
+    (h : dispatchCmp c = (calls, some b)) : cpyCmp c = (calls, some b) := by
+  obtain ⟨kind, same, rsub, ident, lop, rrop⟩ := c
+  simp only [dispatchCmp] at h
+  simp only [cpyCmp, hp]
+  rcases lop with _ | lv <;> rcases rrop with _ | rv <;> simp_all
+
+theorem C10.cmp_dispatch_fixed (c : CmpCfg) (calls : List MCall) (b : Bool)
+    (h : cpyCmp c = (calls, some b)) : dispatchCmpFixed c = (calls, some b) ∨ dispatchCmpFixed c = (calls, none) := by
+  obtain ⟨kind, same, rsub, ident, lop, rrop⟩ := c
+  simp only [cpyCmp] at h
+  simp only [dispatchCmpFixed, dispatchCmp]
+  rcases lop with _ | lv <;> rcases rrop with _ | rv <;> cases kind <;> cases same <;> cases rsub <;>
+    simp_all [CmpCfg.priority]
+
+example : CmpCfg.priority ⟨.ord, false, false, false, .notImpl, .val true⟩ = false ∧
+    cpyCmp ⟨.ord, false, false, false, .notImpl, .val true⟩ = ([.l, .r], some true) := by decide
